@@ -182,8 +182,13 @@ func runC07(c *Ctx) {
 		p := &asm.Prog{Cfg: cfg}
 		equSigned := false
 		var equNames []string
+		lowerConsts := r.Chance(1, 5)
 		for k := 0; k < nequ; k++ {
 			name := []string{"x", "yy", "NEG", "k2"}[k]
+			if lowerConsts {
+				// names are case-sensitive: the lower-case spellings of the predefined constants are ordinary user names
+				name = []string{"coresize", "maxlength", "mindistance", "maxprocesses"}[k]
+			}
 			sub := &exprGen{r: r, signRuns: eg.signRuns}
 			for _, nm := range equNames {
 				sub.atoms = append(sub.atoms, asm.Ref{Name: nm})
